@@ -109,14 +109,17 @@ def build_rs2coq():
 
 
 def gen_code():
-    """translate the target functions of /repo's CURRENT sources to Gen/Code.v. When a function has
-    left the translated subset the file is replaced by a stub without definitions: the lemmas about the
-    translated code (Proofs/CodeFacts.v) then fail to compile and the properties that import them
-    report the broken tie."""
+    """translate the target functions of /repo's CURRENT sources to Gen/Code.v. A function that has left
+    the translated subset is left out of the file together with the targets that call it (exit status 2:
+    everything else is still generated), so only the lemmas about the affected functions
+    (Proofs/Code*.v) stop compiling and only the properties that import those report the broken tie.
+    Any other failure replaces the file by a stub without definitions."""
     build_rs2coq()
     dest = os.path.join(COQ, "Gen", "Code.v")
     rc, out = sh([RS2COQ, REPO, os.path.join(VERIF, "rs2coq", "targets.txt"), dest])
-    if rc != 0:
+    if rc == 2 and os.path.exists(dest):
+        log("NOTE rs2coq (partial): " + out.strip()[:900])
+    elif rc != 0:
         stub = "(* GENERATED: translation FAILED on this run *)\n(* %s *)\n" % out.strip().replace("*)", "* )")[:3000]
         if not os.path.exists(dest) or open(dest).read() != stub:
             open(dest, "w").write(stub)
